@@ -12,6 +12,7 @@ from .props import check, COMMON_ASSUMPTIONS
 E3 = small.Engine("hashx", "e3", "hashx.cpp")
 E6 = small.Engine("listx", "e6", "listx.cpp")
 E7 = small.Engine("fwdx", "e7", "fwdx.cpp")
+E2ISO = small.Engine("iso", "e2", "iso.cpp")
 
 
 def _triage(res, engine_name, binary, cands, mkreplay):
@@ -209,8 +210,42 @@ def c05(res, tier, deadline):
     _triage(res, "E3", binary, cands, lambda c: ["replay", c["case"]])
 
 
+@check("C14")
+def c14(res, tier, deadline):
+    res.rule = ("policies A = release rebound, B = rebound + checked hash (replace), C = std_rtti "
+                "+ vptr_map + vectored_error (thorough), sharing classes K0..K3 and methods with "
+                "the same key and signature; operations per policy: toggle each of 4 class "
+                "records (real class_declaration objects), toggle 3 definitions (one through the "
+                "real add_function with a function shared by all policies), update, install an "
+                "error handler, create a virtual_ptr; EVERY operation sequence up to the depth from "
+                "the pristine state and from 'one policy fully set up' is executed; after each "
+                "operation the full snapshot of every other policy (catalogs, handler identity by "
+                "behaviour, dispatch data address/size/content, hash parameters, v-table pointer "
+                "vector, static v-table pointers, slots/strides, outcome of every legal call and "
+                "of a call through a live virtual_ptr) must be unchanged, and the acting policy "
+                "must match a reference model. Non-trivial = sequences touching >= 2 policies.")
+    res.assumptions = ["policies obtained with rebind (replace/remove without rebind keeps the original key by design)",
+                       "worlds are reset explicitly between sequences (statics cleared), not by re-executing the process"]
+    binary = E2ISO.compile(res)
+    if not binary:
+        return
+    n = C.NCPU
+    cands, samples, sums = _run_many(res, binary, [[tier, "%d/%d" % (i, n)] for i in range(n)], timeout=7000)
+    for s in sums:
+        res.states += s["sequences"]
+        res.traces += s["sequences"]
+        res.transitions += s["transitions"]
+        res.nontrivial += s["nontrivial"]
+        res.add_counters({"snapshots": s["snapshots"]})
+    res.bounds.append({"run": "iso " + tier, "complete": True,
+                       "counters": {"sequences": res.states, "shards": len(sums)}})
+    res.samples = samples[:8]
+    _triage(res, "E2ISO", binary, cands,
+            lambda c: ["replay", c["case"]] if c.get("kind") != "crash" else c["crash_args"])
+
+
 def replay(prop, cand, path):
-    eng = {"E3": E3, "E6": E6, "E7": E7}.get(cand.get("engine"))
+    eng = {"E3": E3, "E6": E6, "E7": E7, "E2ISO": E2ISO}.get(cand.get("engine"))
     if eng is None:
         print("unknown engine in replay file", file=sys.stderr)
         return 2
